@@ -187,6 +187,22 @@ CHECKS.update({
             "sampled not enumerated (the theorems cover all interleavings of atomic calls); std BufWriter and the sockets as in C05/C13",
             "machine-checked proof (Coq 8.16) on a hand-written model + differential correspondence check on real threads (observed lock order replayed in the model)",
             "DESIGN.md 8.C12"),
+    "C17": ("proof",
+            "Coq theorems (Props/C17.v, 8) about Model/Macro.v - the expansion of _generate_impl! as an instruction list run by an "
+            "interpreter over the client model of C01/C03 - for every macro, argument, number of tag pairs, client configuration "
+            "and sink script: with a global client set the macro hands the sink exactly the strings, the handler exactly the "
+            "errors and consumes exactly the sink answers of <kind>_with_tags + with_tag per pair in written order + quiet send "
+            "(one emit, the line of C01); every argument expression is evaluated exactly once in the written order; it panics "
+            "iff no client is set, and then nothing is evaluated, emitted or handled; the seven front ends use the method of "
+            "their own kind.  Correspondence: one fresh child process per case; 132 statically expanded call sites (22 value "
+            "types x 0..5 tag pairs) whose argument expressions log their evaluation; clients with prefix/default tags/"
+            "container/refusing sink/handler; invocations before the set, after a second (ignored) set, on fresh threads; "
+            "compared with the extracted model and judged against the property with the reference evaluation of C01-C04; "
+            "census of macros.rs and client.rs",
+            WIRE_NOTE + "; partial by nature: macro_rules! expansion and Rust's evaluation order are the compiler's - the model "
+            "abstracts them and the check validates them on every call site",
+            "machine-checked proof (Coq 8.16) on a hand-written model + differential correspondence check (one process per global-client configuration)",
+            "DESIGN.md 8.C17"),
     "C18": ("proof",
             "Coq theorems (Props/C18.v, 11) about a release/acquire view machine (Model/Singleton.v) for one atomic state and "
             "one non-atomic cell, for EVERY number of threads, programs over set/get/is_set and schedules incl. every stale-read "
